@@ -324,6 +324,7 @@ func checkC05(r *Run) {
 			vs, ok := evalC05(&cs)
 			c.st.Evals++
 			c.st.Transitions++
+			c.st.Outcomes[fmt.Sprintf("parsed=%v", ok)]++
 			if ok {
 				c.st.States++
 				c.st.Nontrivial++
